@@ -46,8 +46,45 @@ def gen(ctx, k):
     return G.gen_geometric(ctx.rng, kind=kind, max_cells=(4 if big else 3) if kind == 'hex' else (3 if big else 2))
 
 
+def build(m):
+    """FEMData of the mesh dict on cleared caches.  `int_coords`: the node table is handed to femio as an int64 array (what
+    np.arange / np.meshgrid produce for a voxel or integer grid) - built directly, not through the float-only G.to_femio"""
+    if not m.get('int_coords'):
+        return U.fresh(m)
+    from femio import FEMData, FEMAttribute, FEMElementalAttribute
+    U.clear_caches()
+    assert all(F(v).denominator == 1 for _, p in m['nodes'] for v in p)
+    nodes = FEMAttribute('NODE', ids=np.array([i for i, _ in m['nodes']]),
+                         data=np.array([[int(v) for v in p] for _, p in m['nodes']], dtype=np.int64), silent=True)
+    el = {t: FEMAttribute(t, ids=np.array([e for e, _ in b]), data=np.array([c for _, c in b]), silent=True)
+          for t, b in m['blocks'].items()}
+    fd = G.quiet(lambda: FEMData(nodes=nodes, elements=FEMElementalAttribute('ELEMENT', el)))
+    assert fd.nodes.data.dtype.kind == 'i'
+    return fd
+
+
+def gen_int(ctx, k):
+    """stream `int-coords`: conforming tet / hex meshes all of whose coordinates are integers, stored as int64.
+    `voxel`: axis-aligned grid with ODD cell sizes (1, 3, 5 per axis), so that cell / facet centres are not integers;
+    `int-affine`: the generator's affine image (entries k / {1, 2, 4}) multiplied by 4."""
+    kind = 'tet' if k % 2 == 0 else 'hex'
+    voxel = k % 4 < 2
+    m = G.gen_geometric(ctx.rng, kind=kind, max_cells=3 if kind == 'hex' else 2, jitter=False, affine=not voxel,
+                        id_style=('pow2' if k % 8 >= 6 else None))
+    if voxel:
+        import math
+        d = [ctx.rng.choice([1, 1, 3, 5]) for _ in range(3)]
+        sh = [ctx.rng.randint(-9, 9) for _ in range(3)]
+        m['nodes'] = [(i, tuple(F(d[j] * math.floor(p[j]) + sh[j]) for j in range(3))) for i, p in m['nodes']]
+    else:
+        m['nodes'] = [(i, tuple(4 * v for v in p)) for i, p in m['nodes']]
+    m['int_coords'] = True
+    m['int_style'] = 'voxel' if voxel else 'int-affine'
+    return m
+
+
 def real_obs(ctx, m):
-    fd = U.fresh(m)
+    fd = build(m)
     if m.get('reuse'):
         # thin history layer (labelled stream 'same-object-after-coordinate-assignment'): the object first holds other
         # coordinates and is queried, then the coordinates of `m` are assigned through the public setter and the
@@ -65,12 +102,12 @@ def real_obs(ctx, m):
            'triples': sorted((int(r), int(c), int(v)) for r, c, v in zip(coo.row, coo.col, coo.data)),
            'shape': tuple(int(x) for x in inc.shape), 'normals': normals.tolist(),
            'cells': U.flat_ids(fd)}
-    f2 = U.fresh(m)
+    f2 = build(m)
     U.stage('to_facets() / areas / centres / volumes')
     ffd2 = G.quiet(f2.to_facets)
     obs['areas'] = [float(x) for x in G.quiet(ffd2.calculate_element_areas)[:, 0]]
     obs['centres'] = G.quiet(lambda: ffd2.convert_nodal2elemental(ffd2.nodes.data, calc_average=True)).tolist()
-    f3 = U.fresh(m)
+    f3 = build(m)
     obs['vols'] = [float(x) for x in G.quiet(f3.calculate_element_volumes, raise_negative_volume=False)[:, 0]]
     return obs
 
@@ -198,8 +235,13 @@ def correspond(ctx, m, obs, case, planar):
     return flags
 
 
+def _centres(m):
+    pos = dict(m['nodes'])
+    return [[pos[n][j] for n in c] for _, _, c in U.elem_list(m) for j in range(3)]
+
+
 def one_case(ctx, m):
-    case = U.mesh_case(m, jittered=bool(m.get('jittered')), reuse=bool(m.get('reuse')))
+    case = U.mesh_case(m, jittered=bool(m.get('jittered')), reuse=bool(m.get('reuse')), int_coords=bool(m.get('int_coords')))
     planar = m['kind'] == 'tet' or not m.get('jittered')
     key = (tuple(m['nodes']), tuple((t, tuple((e, tuple(c)) for e, c in b)) for t, b in m['blocks'].items()))
     obs = U.guarded(ctx, case, key, real_obs, ctx, m)
@@ -212,6 +254,10 @@ def one_case(ctx, m):
         ctx.count(f'{lab}:{m.get(lab)}')
     if m.get('n_unref'):
         ctx.count('has-unreferenced-nodes')
+    if m.get('int_coords'):
+        ctx.count('stream:int-coords:' + m['int_style'])
+        ctx.count('stream:int-coords:' + ('some' if any(F(sum(c), len(c)).denominator != 1 for c in _centres(m)) else 'no')
+                  + ' non-integer cell centre coordinate')
     if ctx.driver is not None:
         flags = correspond(ctx, m, obs, case, planar)
         if flags is not None and not all(flags.values()):
@@ -227,6 +273,8 @@ def run(ctx):
             mm = G.from_json(obj['input']['mesh'])
             mm['jittered'] = obj['input'].get('jittered', False)
             mm['reuse'] = obj['input'].get('reuse', False)
+            if obj['input'].get('int_coords'):
+                mm['int_coords'], mm['int_style'] = True, 'corpus'
             one_case(ctx, mm)
             ctx.count('corpus')
         except Exception as e:  # noqa
@@ -237,6 +285,15 @@ def run(ctx):
             m['reuse'] = True
             ctx.count('stream:same-object-after-coordinate-assignment')
         one_case(ctx, m)
+    # ---- drawn after the main loop (its cases are unchanged for a given seed); both streams are inside the quantifier
+    for k in range(ctx.n(48, 500) if ctx.driver is not None else ctx.n(96, 600)):
+        # ids with a binary structure (parts offset by multiples of 2^o, max id + 1 = 2^k), see meshgen.random_ids
+        kind = 'tet' if k % 2 == 0 else 'hex'
+        m = G.gen_geometric(ctx.rng, kind=kind, max_cells=3 if kind == 'hex' else 2, id_style='pow2')
+        ctx.count('stream:ids-pow2')
+        one_case(ctx, m)
+    for k in range(ctx.n(40, 400) if ctx.driver is not None else ctx.n(80, 500)):
+        one_case(ctx, gen_int(ctx, k))
     ctx.extra['p_tie'] = {'tolerance_float64': U.TOL_LINEAR, 'tolerance_float32_volume': U.TOL_CENTROID,
                           'scale': 'max|coordinate|^d (d = 1 centres, 2 areas, 3 volumes)'}
 
@@ -245,8 +302,9 @@ def replay(ctx, obj):
     m = G.from_json(obj['input']['mesh'])
     m['jittered'] = obj['input'].get('jittered', False)
     m['reuse'] = obj['input'].get('reuse', False)
+    m['int_coords'] = obj['input'].get('int_coords', False)
     planar = m['kind'] == 'tet' or set(m['blocks']) == {'tet'} or not m['jittered']
-    case = U.mesh_case(m, jittered=m['jittered'])
+    case = U.mesh_case(m, jittered=m['jittered'], int_coords=m['int_coords'])
     n0 = len(ctx.failures)
     obs = U.guarded(ctx, case, 'replay', real_obs, ctx, m)
     if obs is None:
